@@ -1033,6 +1033,20 @@ class Engine:
             if isinstance(v, Agg) and v.variant == "None":
                 return v
             return NotImplemented
+        # --- Option/Result combinators on values whose variant is known ---
+        m = re.search(r"(?:Result|Option)::(unwrap_or|unwrap_or_default|unwrap|expect|ok|unwrap_or_else)$", c)
+        if m and args and isinstance(self.peel(args[0]) if isinstance(args[0], Ref) else args[0], Agg):
+            v = self.peel(args[0]) if isinstance(args[0], Ref) else args[0]
+            op = m.group(1)
+            if v.variant in ("Ok", "Some") and v.fields:
+                if op == "ok":
+                    return self.mk_enum("Option", "Some", [v.fields[0]])
+                return v.fields[0]
+            if v.variant in ("Err", "None"):
+                if op == "unwrap_or" and len(args) > 1:
+                    return args[1]
+                if op == "ok":
+                    return self.mk_enum("Option", "None", [])
         # --- formatting / logging: no semantic effect tracked, keep argument origins for data-flow checks ---
         if c.endswith("Argument::new_display") or c.endswith("Argument::new_debug") or c.endswith("Argument::new_lower_hex"):
             return Agg("fmt::Argument", [self.peel(args[0])], kind="struct")
